@@ -25,12 +25,15 @@ def gen_image(rng, n, arch=None, small_identity=False):
         "disc_number": rng.choice([1, 1, 2, 3, 10, 11]), "disc_count": rng.choice([1, 3, 12]),
         "checksums": dict((t, hexstr(rng, {"md5": 32, "sha1": 40, "sha256": 64, "sha512": 128}[t]))
                           for t in subset(rng, pools.CHECKSUM_TYPES, 1, 3)),
-        "implant_md5": rng.choice([None, hexstr(rng, 32)]),
+        "implant_md5": rng.choice([None, hexstr(rng, 32), hexstr(rng, 32).upper()]),
         "bootable": rng.random() < 0.5,
         "subvariant": pick(rng, SUBVARIANTS),
         "unified": unified,
         "additional_variants": subset(rng, VARIANTS, 0, 3) if unified else [],
     }
+    if rng.random() < 0.15:
+        # digests as some tools print them (upper case), an algorithm name in another spelling: kept verbatim
+        img["checksums"] = dict(((t.upper() if rng.random() < 0.3 else t), v.upper()) for t, v in img["checksums"].items())
     return img
 
 
